@@ -148,6 +148,29 @@ def run_scenario(job, sc, node_dir):
                 with open(p + ext, "wb") as f:
                     f.write(b"stale index\n")
 
+    if cfg.get("repeat") == "dirty" and argv and argv[0] in ("find_snv_candidates", "learn"):
+        # these two build the FASTA index themselves (pyfaidx): an index left by an earlier run on an older version of
+        # the reference (older than the FASTA, different line layout) must be rebuilt, not trusted
+        for a in argv[1:]:
+            if a.endswith((".fasta", ".fa")) and os.path.exists(a) and os.path.exists(a + ".fai"):
+                try:
+                    lines = open(a + ".fai").read().splitlines()
+                    stale = []
+                    for ln in lines:
+                        f = ln.split("\t")
+                        if len(f) >= 5:
+                            f[3] = str(int(f[3]) + 10)
+                            f[4] = str(int(f[4]) + 10)
+                        stale.append("\t".join(f))
+                    os.unlink(a + ".fai")
+                    with open(a + ".fai", "w") as fh:
+                        fh.write("\n".join(stale) + "\n")
+                    mt = os.stat(a).st_mtime - 1000
+                    os.utime(a + ".fai", (mt, mt))
+                    result["stale_input_index"] = True
+                except (OSError, ValueError):
+                    pass
+
     import logging
     import whatshap.__main__ as wm
 
